@@ -54,7 +54,7 @@ VARS = ("v", "w")
 CNAME = {"f": "c37_f", "g": "c37_g", "v": "c37_v", "w": "c37_w"}
 CDEF = "int c37_v; long c37_w; int c37_f(int); long c37_g(long);"
 _CN = frozenset(CNAME.values())
-MODES = ("inline", "ool")
+MODES = ("inline", "ool", "inline-handle")      # inline-handle: ffi.dlopen(<void * handle from a C-level dlopen>)
 WVAL = {"v": 1234, "w": -77}
 PROBE_DEPTH = 3          # histories up to this length get the dealloc-after-close probe (see Sys.close)
 
@@ -158,10 +158,18 @@ class Sys(object):
         self.cfg = cfg
         (mode,) = cfg
         self.mode = mode
-        self.ffi = ffi = _state[mode]
+        self.ffi = ffi = _state["inline" if mode == "inline-handle" else mode]
         self.path = path = _private_copy()
+        self.raw_handle = None
         try:
-            self.lib = ffi.dlopen(path)
+            if mode == "inline-handle":
+                import _ctypes
+                # the library is opened by "C code" (here _ctypes); cffi only borrows the handle and must
+                # not close it, but ffi.dlclose(lib) must still make the lib object refuse accesses
+                self.raw_handle = _ctypes.dlopen(path, os.RTLD_NOW)
+                self.lib = ffi.dlopen(ffi.cast("void *", self.raw_handle))
+            else:
+                self.lib = ffi.dlopen(path)
         finally:
             os.unlink(path)          # the mapping stays; nothing accumulates in the scratch directory
         # model
@@ -182,7 +190,17 @@ class Sys(object):
         lib = self.lib
         self.lib = None
         self.held = None
-        if self.mode == "inline" and lib is not None:
+        if self.raw_handle is not None:
+            import _ctypes
+            # an explicit ffi.dlclose(lib) closes the handle even when cffi only borrowed it (that is the
+            # documented effect of dlclose()); otherwise the owner -- this harness -- closes it
+            if not self.closed:
+                try:
+                    _ctypes.dlclose(self.raw_handle)
+                except OSError:
+                    pass
+            self.raw_handle = None
+        if self.mode.startswith("inline") and lib is not None:
             ffi = self.ffi
             try:
                 ffi._libraries.remove(lib)
@@ -199,7 +217,7 @@ class Sys(object):
     def key(self):
         # model state + what can be seen of the implementation's caches without disturbing them
         lib = self.lib
-        if self.mode == "inline":
+        if self.mode.startswith("inline"):
             impl = (tuple(sorted(lib.__dict__)), tuple(sorted(k for k in type(lib).__dict__ if k in _CN)))
         else:
             impl = ()        # _cffi_backend.Lib does not expose its cache; the model's sets mirror it
